@@ -8,9 +8,72 @@ import (
 	"github.com/hashicorp/hcl/v2"
 	"github.com/hashicorp/hcl/v2/hclsyntax"
 
+	"github.com/hashicorp/hcl-lang/schema"
+	"github.com/zclconf/go-cty/cty"
+
 	"verifharness/internal/core"
+	"verifharness/internal/model"
 	"verifharness/internal/runner"
 )
+
+// governedObjects collects the object literals (>= 2 items) whose items are
+// interpreted by an Object or Map constraint reached through collection
+// constraints only.
+func governedObjects(e hclsyntax.Expression, c schema.Constraint, depth int, out *[]*hclsyntax.ObjectConsExpr) {
+	if depth > 8 || c == nil {
+		return
+	}
+	switch cons := c.(type) {
+	case schema.Object:
+		oc, ok := e.(*hclsyntax.ObjectConsExpr)
+		if !ok {
+			return
+		}
+		if len(oc.Items) >= 2 {
+			*out = append(*out, oc)
+		}
+		for _, it := range oc.Items {
+			key, _ := it.KeyExpr.Value(nil)
+			if key.IsNull() || !key.IsWhollyKnown() || key.Type() != cty.String {
+				continue
+			}
+			if as, ok := cons.Attributes[key.AsString()]; ok {
+				governedObjects(it.ValueExpr, as.Constraint, depth+1, out)
+			}
+		}
+	case schema.Map:
+		oc, ok := e.(*hclsyntax.ObjectConsExpr)
+		if !ok {
+			return
+		}
+		if len(oc.Items) >= 2 {
+			*out = append(*out, oc)
+		}
+		for _, it := range oc.Items {
+			governedObjects(it.ValueExpr, cons.Elem, depth+1, out)
+		}
+	case schema.List:
+		if tc, ok := e.(*hclsyntax.TupleConsExpr); ok {
+			for _, el := range tc.Exprs {
+				governedObjects(el, cons.Elem, depth+1, out)
+			}
+		}
+	case schema.Set:
+		if tc, ok := e.(*hclsyntax.TupleConsExpr); ok {
+			for _, el := range tc.Exprs {
+				governedObjects(el, cons.Elem, depth+1, out)
+			}
+		}
+	case schema.Tuple:
+		if tc, ok := e.(*hclsyntax.TupleConsExpr); ok {
+			for i, el := range tc.Exprs {
+				if i < len(cons.Elems) {
+					governedObjects(el, cons.Elems[i], depth+1, out)
+				}
+			}
+		}
+	}
+}
 
 // c12items is the second part of C12: the hover on an item of a written
 // object / map does not depend on the items written before it. For every
@@ -51,13 +114,15 @@ func (p c12items) RunUnit(idx int, tier string, seed int64, focus map[string]str
 			continue
 		}
 		src := env0.WS.Paths[st.Path].Files[st.File]
+		// only literals governed by an Object / Map constraint through a chain of
+		// collection constraints: below a OneOf or an any-expression the alternative
+		// that interprets an item may legitimately depend on the other items
 		var objs []*hclsyntax.ObjectConsExpr
-		hclsyntax.VisitAll(body, func(n hclsyntax.Node) hcl.Diagnostics {
-			if oc, ok := n.(*hclsyntax.ObjectConsExpr); ok && len(oc.Items) >= 2 {
-				objs = append(objs, oc)
-			}
-			return nil
-		})
+		var sites []valueSite
+		valueSites(body, model.EffRoot(pc.Schema), &sites)
+		for _, vs := range sites {
+			governedObjects(vs.attr.Expr, vs.schema.Constraint, 0, &objs)
+		}
 		tab0 := env0.Tables[st.Path][st.File]
 		for _, oc := range objs {
 			first := oc.Items[0].KeyExpr.Range().Start.Byte
